@@ -130,7 +130,7 @@ func c14Family(shape map[string]any, variant int) ([]string, error) {
 	var marks string
 	switch alpha {
 	case "digits":
-		return []string{prefix + string(c14Cycle("0123456789", n, variant)), prefix + string(c14Cycle("0123456789", n, variant+3))}, nil
+		return []string{prefix + string(c14Cycle("0123456789", n, variant)), prefix + string(c14Cycle("0123456789", n, variant+5))}, nil
 	case "hexlower":
 		marks = "af"
 	case "hexupper":
@@ -310,6 +310,8 @@ type c14PipeHarness struct {
 	curT    string
 	ing     map[string]any
 	res     map[string]any
+
+	lastAnswer string // of the last refused request (diagnostics)
 }
 
 func c14Strings(v any) []string {
@@ -394,7 +396,7 @@ func (h *c14PipeHarness) Reset(init map[string]any) error {
 	envOf := h.envOf
 	// stands for Honeycomb's /1/auth: the environment a key belongs to
 	h.router.SetEnvironmentCache(time.Hour, func(key string) (string, error) {
-		if env, ok := envOf[key]; ok {
+		if env, ok := envOf[key]; ok && !strings.HasPrefix(env, "\x00") {
 			return env, nil
 		}
 		return "", fmt.Errorf("unknown key %q", key)
@@ -477,10 +479,15 @@ func c14Body(enc string, spans []map[string]string) ([]byte, string, error) {
 }
 
 func (h *c14PipeHarness) ingest(a map[string]any) error {
-	env, ds, enc := verifkit.Str(a, "env"), verifkit.Str(a, "ds"), verifkit.Str(a, "enc")
+	env, ds, enc, auth := verifkit.Str(a, "env"), verifkit.Str(a, "ds"), verifkit.Str(a, "enc"), verifkit.Str(a, "auth")
+	// a key belongs to one environment, and a key whose lookup fails is not a
+	// key whose lookup worked before (the router caches successful lookups)
 	variant := 0
 	if env == "web" {
 		variant = 1
+	}
+	if auth == "fail" {
+		variant += 2
 	}
 	fam, err := c14Family(a["key"].(map[string]any), variant)
 	if err != nil {
@@ -489,13 +496,16 @@ func (h *c14PipeHarness) ingest(a map[string]any) error {
 	key := fam[h.nreq%len(fam)]
 	h.nreq++
 	if key != "" {
-		if prev, ok := h.envOf[key]; ok && prev != env {
+		want := env
+		if auth == "fail" {
+			want = "\x00lookup fails"
+		}
+		if prev, ok := h.envOf[key]; ok && prev != want {
 			return fmt.Errorf("harness: key %q used for two environments", key)
 		}
-		h.envOf[key] = env
+		h.envOf[key] = want
 	}
-	h.ntrace++
-	h.curT = fmt.Sprintf("c14-trace-%d-%d", h.nreset, h.ntrace)
+	h.curT = fmt.Sprintf("c14-trace-%d-%d", h.nreset, h.ntrace+1)
 	h.coll.mu.Lock()
 	h.coll.memoized, h.coll.meta = nil, nil
 	h.coll.mu.Unlock()
@@ -509,6 +519,7 @@ func (h *c14PipeHarness) ingest(a map[string]any) error {
 		}
 		return req
 	}
+	var answer string
 	if enc == "event" {
 		// POST /1/events/<ds>: the root span alone, the body is its fields
 		body, err := json.Marshal(c14Span(h.curT, "", "root"))
@@ -516,28 +527,14 @@ func (h *c14PipeHarness) ingest(a map[string]any) error {
 			return err
 		}
 		h.router.event(w, newReq("/1/events/", body, "application/json"))
-		if w.Code != http.StatusOK {
-			return fmt.Errorf("event request (key %q, dataset %q) answered %d: %s", key, ds, w.Code, w.Body.String())
-		}
 	} else {
 		body, ctype, err := c14Body(enc, []map[string]string{c14Span(h.curT, "c14-parent", "child"), c14Span(h.curT, "", "root")})
 		if err != nil {
 			return err
 		}
 		h.router.batch(w, newReq("/1/batch/", body, ctype))
-		if w.Code != http.StatusOK {
-			return fmt.Errorf("batch request (key %q, dataset %q) answered %d: %s", key, ds, w.Code, w.Body.String())
-		}
-		var resp []map[string]any
-		if err := json.Unmarshal(w.Body.Bytes(), &resp); err != nil || len(resp) != 2 {
-			return fmt.Errorf("batch response %q: %v", w.Body.String(), err)
-		}
-		for _, r := range resp {
-			if verifkit.Int(r, "status") != http.StatusAccepted {
-				return fmt.Errorf("batch response %q", w.Body.String())
-			}
-		}
 	}
+	answer = fmt.Sprintf("%d %s", w.Code, strings.TrimSpace(w.Body.String()))
 	// whatever reached the collector has been processed by its worker
 	h.coll.mu.Lock()
 	added := h.coll.added
@@ -546,6 +543,19 @@ func (h *c14PipeHarness) ingest(a map[string]any) error {
 	if err := h.ev.waitFor("spans processed", func(c map[string]int) bool { return c["processed"] >= added }); err != nil {
 		return err
 	}
+	if len(mem) == 0 {
+		// refused: nothing of the request reached the collector; the node is as it was
+		h.lastAnswer = answer
+		if auth == "ok" {
+			ing := map[string]any{"refused": answer}
+			for k, v := range h.ing {
+				ing[k] = v
+			}
+			h.ing = ing
+		}
+		return nil
+	}
+	h.ntrace++
 	need := c14Strings(a["need"])
 	avail := []string{}
 	for _, f := range need {
@@ -560,6 +570,9 @@ func (h *c14PipeHarness) ingest(a map[string]any) error {
 		}
 	}
 	h.ing = map[string]any{"needSet": need, "availSet": avail, "spans": len(mem)}
+	if w.Code != http.StatusOK && auth == "ok" {
+		h.ing["answer"] = answer // accepted spans but answered an error
+	}
 	h.res = h.noRes()
 	h.phase = "pending"
 	return nil
